@@ -663,7 +663,28 @@ def gc9(ctx):
                 if 'FileNumber' in f['ty']:
                     holders.add('%s.%s' % (a['path'].split('::')[-1], f['name']))
     allowed = {'RecordMeta.file_number', 'RollingReader.file_number', 'RollingWriter.file_number', 'FileTracker.files'}
-    extra = sorted(holders - allowed)
+    # only types that can be stored for longer than a call matter: those contained (transitively, by field type)
+    # in the log itself or in the recovery reader; a private struct used as a return value is transient
+    contains = {}
+    for a in ctx.f.adts.values():
+        if a.get('is_test_item'):
+            continue
+        short = a['path'].split('::')[-1]
+        for v in a['variants']:
+            for f in v['fields']:
+                for a2 in ctx.f.adts.values():
+                    s2 = a2['path'].split('::')[-1]
+                    if re.search(r'(?<![A-Za-z0-9_])' + re.escape(s2) + r'(?![A-Za-z0-9_])', f['ty']):
+                        contains.setdefault(short, set()).add(s2)
+    long_lived = set()
+    stack = ['MultiRecordLog', 'RollingReader', 'RecordReader', 'FrameReader']
+    while stack:
+        x = stack.pop()
+        if x in long_lived:
+            continue
+        long_lived.add(x)
+        stack.extend(contains.get(x, ()))
+    extra = sorted(h for h in holders - allowed if h.split('.')[0] in long_lived)
     ctx.check(not extra, 'holders', '-', 'FileNumber handles live only in %s' % sorted(holders),
               'a new long-lived holder of a FileNumber appeared: %s (a cached handle pins its WAL file forever)' % extra, nontrivial=False)
     leaks = []
